@@ -105,12 +105,23 @@ class Session:
         self.status = None
         self.closed = False
 
-    def _label(self, kind, fn):
+    def _label(self, kind, fn, pre):
         run = R.RUN.get()
+        if pre is None:
+            # before fn runs: reserve the sequence number (it precedes the body's) and remember the trace length
+            return (R.next_seq(), len(run.trace) if run is not None else 0)
+        seq, n0 = pre
         tag = run.tag if run is not None else None
-        f = getattr(fn, 'func', fn)
-        nid = getattr(getattr(f, '__self__', None), '_vk_id', None)
-        return ('exec', tag, nid, R.next_seq())
+        nid = None
+        if run is not None:
+            for e in run.trace[n0:]:
+                if e['kind'] == 'body':
+                    nid = e['node']
+                    break
+        if nid is None:
+            f = getattr(fn, 'func', fn)
+            nid = getattr(getattr(f, '__self__', None), '_vk_id', None)
+        return ('exec', tag, nid, seq)
 
     def start_run(self, compiled, chart, variant, tag='r0', pipeline_id=None, input_kwargs=None, delay_iters=0):
         rec = R.RunRec(tag, compiled.program, variant, loop=self.loop, rec_start_of=compiled.rec_start_of)
